@@ -9,7 +9,7 @@ use super::{generic_gen_run, generic_replay, World, WorldDef};
 use crate::core::*;
 use crate::flavour::{NoopLock, PlLock};
 use crate::rng::Rng;
-use crate::val::{self, Payload, Val, Zst};
+use crate::val::{self, Fat, Payload, Val, Zst};
 use futures_core::future::FusedFuture;
 use futures_core::stream::{FusedStream, Stream};
 use futures_intrusive::buffer::{ArrayBuf, FixedHeapBuf, GrowingHeapBuf, RingBuf};
@@ -406,6 +406,14 @@ impl<A: MpmcApi> MpmcWorld<A> {
                 _ => self.streams.get(id).is_terminated(),
             };
             oracle::c17_terminated(env, id, t);
+            // C11: values accepted before the close stay receivable; a stream that declares
+            // itself finished while such values are undelivered withholds them from every
+            // consumer that honours FusedStream (select!, select_next_some)
+            if t && env.slots[id].kind == K_STREAM && env.slots[id].st != St::Done && self.closed {
+                if let RecvOutcome::Value(v) = self.peek_recv() {
+                    env.fail("C11", "terminated-before-drained", format!("after {}: stream #{} reports is_terminated() on the closed channel although value {} accepted before the close is still undelivered", opname, id, v), false);
+                }
+            }
         }
         // C10: no lost wake-up (from the reference model)
         let avail = !self.buf.is_empty() || !self.parked.is_empty() && self.cap == 0;
@@ -1233,12 +1241,12 @@ impl<A: MpmcApi> World for MpmcWorld<A> {
         }
         if A::P::ZST {
             // values without identity: as many drops as values were created
-            let made = (1..self.next_tag.max(1)).filter(|t| self.loc[*t as usize] != Loc::Unused).count() as u32;
+            let made = (1..val::MAX_TAGS as u32).filter(|t| self.loc[*t as usize] != Loc::Unused).count() as u32;
             let (lib, own, _) = val::counts(0);
             if (lib + own) as u32 != made {
                 env.fail("C08", "drop-count", format!("{} values were created but {} were dropped ({} inside the library, {} by the harness)", made, lib + own, lib, own), false);
             }
-            for tag in 1..self.next_tag.max(1) {
+            for tag in 1..val::MAX_TAGS as u32 {
                 if matches!(self.loc[tag as usize], Loc::InSender | Loc::Buffered) {
                     env.fail("C08", "value-lost", format!("value {} is still {:?} after everything was dropped", tag, self.loc[tag as usize]), false);
                 }
@@ -1246,7 +1254,7 @@ impl<A: MpmcApi> World for MpmcWorld<A> {
             return;
         }
         // C08: at the end of every history each value was dropped exactly once
-        for tag in 1..self.next_tag.max(1) {
+        for tag in 1..val::MAX_TAGS as u32 {
             let l = self.loc[tag as usize];
             if l == Loc::Unused {
                 continue;
@@ -1271,7 +1279,10 @@ fn draw_cfg(rng: &mut Rng) -> Cfg {
         // mostly tiny (every slot matters), sometimes beyond a run's usual fill level and
         // around powers of two (VecDeque growth, index wrap)
         None => {
-            if rng.pct(75) {
+            if FLAVOURS[flavour as usize].0.ends_with("/fat") && rng.pct(60) {
+                // 8 KiB payloads: a byte-bounded reservation bites from 9 slots on
+                *rng.pick(&[9, 12, 16, 17])
+            } else if rng.pct(75) {
                 rng.range(0, 4)
             } else {
                 *rng.pick(&[5, 6, 7, 8, 9, 15, 16, 17])
@@ -1320,7 +1331,7 @@ impl AsRef<[Val]> for UserArr96 {
 }
 
 /// (name, fixed capacity of the buffer type or None if the capacity is a run-time argument)
-const FLAVOURS: [(&str, Option<usize>); 22] = [
+const FLAVOURS: [(&str, Option<usize>); 24] = [
     ("local/array0", Some(0)),
     ("local/array1", Some(1)),
     ("local/array2", Some(2)),
@@ -1343,6 +1354,8 @@ const FLAVOURS: [(&str, Option<usize>); 22] = [
     ("shared/parking_lot/fixedheap/zst", None),
     ("local/array0/zst", Some(0)),
     ("local/userarray96", Some(96)),
+    ("local/fixedheap/fat", None),
+    ("shared/parking_lot/fixedheap/fat", None),
 ];
 const NFLAV: usize = FLAVOURS.len();
 
@@ -1370,7 +1383,9 @@ macro_rules! dispatch {
             18 => $f::<MpmcWorld<Borrowed<NoopLock, ArrayBuf<Zst, [Zst; 2]>>>>($cfg, $($arg),*),
             19 => $f::<MpmcWorld<Shared<PlLock, FixedHeapBuf<Zst>, false>>>($cfg, $($arg),*),
             20 => $f::<MpmcWorld<Borrowed<NoopLock, ArrayBuf<Zst, [Zst; 0]>>>>($cfg, $($arg),*),
-            _ => $f::<MpmcWorld<Borrowed<NoopLock, ArrayBuf<Val, UserArr96>>>>($cfg, $($arg),*),
+            21 => $f::<MpmcWorld<Borrowed<NoopLock, ArrayBuf<Val, UserArr96>>>>($cfg, $($arg),*),
+            22 => $f::<MpmcWorld<Borrowed<NoopLock, FixedHeapBuf<Fat>>>>($cfg, $($arg),*),
+            _ => $f::<MpmcWorld<Shared<PlLock, FixedHeapBuf<Fat>, false>>>($cfg, $($arg),*),
         }
     };
 }
